@@ -47,15 +47,11 @@ CHECKS = {
               "to the code on a malformed + near-miss stream; conforms()/input-mutation oracle"),
         technique='Lean 4 proof over a hand model + effect summaries + differential correspondence', ref='4 C05'),
     'C09': dict(
-        text=("Lean theorems about the constructor step of the generated loader: exact MissingFields list (class + exactly the absent "
-              "required constructor fields), init=False never demanded, defaulted never missing, on success every field holds the last "
-              "supplied value or its default; model tied to the code by exhaustive key-subset correspondence (power set up to 10 keys)"),
-        technique='Lean 4 proof over a hand model + exhaustive subset correspondence', ref='4 C09'),
+        text=('Lean theorems for both engines: exact MissingFields list (class + exactly the absent required constructor fields, in declaration order for v1), init=False never demanded, defaulted never missing, on success every field holds the last supplied value or its default, kwargs contain constructor fields only (v1), a nested failure passes unchanged; models tied to the code by exhaustive key-subset correspondence (power sets) on default and v1 classes'),
+        technique='Lean 4 proof over hand models of both engines + exhaustive subset correspondence', ref='4 C09'),
     'C10': dict(
-        text=("Lean theorems (induction over the document): RAISE never accepts a document containing an unknown key and names one of "
-              "them and the class; catch-all captures exactly the unknown pairs in order minus the tag key; unknown keys never change "
-              "mapped fields; model tied to the code over policy x depth x repetition"),
-        technique='Lean 4 proof over a hand model + differential correspondence', ref='4 C10'),
+        text=('Lean theorems for both engines: RAISE never accepts a document containing an unknown key and names exactly the unknown keys and the class; catch-all captures exactly the unknown pairs in order minus the whitelisted tag key; unknown keys never change mapped fields; v1: the len(o) != i test holds iff the document has an unknown pair (counting proof under V1WellKeyed), IGNORE drops, witnesses of the recorded findings; models tied to the code over policy x depth x repetition x tag presence x history (load-first / dump-first / second root), dump of captured keys compared with the dump model'),
+        technique='Lean 4 proof over hand models of both engines + differential correspondence', ref='4 C10'),
     'C11': dict(
         text=("Lean theorems: the generated skip bookkeeping omits exactly the reference selection (exclude, dump=False, skip_defaults "
               "with the argument winning, skip_defaults_if, per-field SkipIf else Meta.skip_if) whenever no comparison raises; operator "
@@ -63,22 +59,13 @@ CHECKS = {
               "oracle against Condition.evaluate over hashable/unhashable/non-finite/Enum/object comparison values"),
         technique='Lean 4 proof over a hand model + generated operator table + differential correspondence', ref='4 C11'),
     'C12': dict(
-        text=("Lean theorems: merge specification (own setting wins, else root's) for every modelled mergeable setting, special "
-              "attributes never inherited, recursive=False hands nothing down, the travelling config passes unchanged through every "
-              "container and nested instance on dump and load; attribute sets regenerated from AbstractMeta; model tied to the code over "
-              "the settings lattice x shapes x binding styles"),
-        technique='Lean 4 proof over a hand model + generated attribute sets + differential correspondence', ref='4 C12'),
+        text=("Lean theorems for both engines: merge specification (own setting wins, else root's) for every modelled mergeable setting, special attributes never inherited, recursive=False hands nothing down, the travelling config passes unchanged through every container and nested instance on dump and load; v1: a class two levels down is configured with merge(own, root) and its loader contains no mention of the intermediate class's Meta; attribute sets regenerated from AbstractMeta; models tied to the code over the settings lattice x shapes x binding styles, 2- and 3-level v1 nestings with 6 link shapes"),
+        technique='Lean 4 proof over hand models + generated attribute sets + differential correspondence', ref='4 C12'),
     'C13': dict(
-        text=("Lean theorems: a dict whose tag key holds K's tag is loaded by K's loader for every position of K in the Union and any "
-              "other members (dispatch on the tag alone); unassigned / missing tags give ParseError; the tag key resolves to 'ignored' "
-              "(never unknown, never captured); dump appends the tag under the configured key; model tied to the code over families, "
-              "tag keys, argument rotations, container positions, and a load-before-any-dump stream"),
-        technique='Lean 4 proof over a hand model + differential correspondence', ref='4 C13'),
+        text=("Lean theorems for both engines: a dict whose tag key holds K's tag is loaded by K's loader for every position of K in the Union and any other members (dispatch on the tag alone); unassigned / missing tags give ParseError; the tag key is known (never unknown, never captured), also when an init=False attribute mirrors it (v1); dump appends the tag under the configured key; models tied to the code over families, tag keys, argument rotations, container positions, load-before-any-dump streams on both engines"),
+        technique='Lean 4 proof over hand models of both engines + differential correspondence', ref='4 C13'),
     'C14': dict(
-        text=("Lean theorems: every failing load of a v1 class — any JSON input, any field loaders — ends in a library error (proved by "
-              "induction over the field list + constructor step), innermost attribution rule, error lattice regenerated from errors.py; "
-              "model tied to the code on a malformed stream comparing (type, class_name, field_name / missing / unknown); oracle: "
-              "isinstance JSONWizardError, str(e) returns, independent path-based attribution for scalar positions"),
+        text=('Lean theorems: every failing load of a v1 class - any JSON input, any field loaders - ends in a library error (induction over the field list + constructor step, finish step, nested classes), innermost attribution kept, inner errors pass, error lattice regenerated from errors.py; model tied to the code on malformed streams comparing (type, class_name, field_name / missing / unknown); oracle: isinstance JSONWizardError, str(e) returns (incl. missing AliasPath keys in nested classes), independent path-based attribution for scalar positions'),
         technique='Lean 4 proof over a hand model + generated lattice + differential correspondence', ref='4 C14'),
     'C15': dict(
         text=("Lean theorems: repr-quoting of spliced text reads back as exactly that text for every string (induction over the "
